@@ -55,6 +55,11 @@ CHECKS = {
         text="Generated-input search: each drawn transformation of a real structure must leave the whole result of extract_secondary_structure (all interaction kinds, BPSEQ, dot-bracket, extended dot-bracket, elements; with and without gap detection) unchanged up to the drawn renaming. A difference counts only when every decision quantity is farther than 1e-6 from its threshold (measured with the independent reference model). Sampling of motions - no proof of invariance.",
         note=TRUST + "Only transformations applied through unmodified code count. The PDB/mmCIF relation compares two harness-emitted files of the same atoms.",
         ref="3 C05"),
+    "C06": dict(
+        technique="corpus structures x Hypothesis-drawn pair lists (duplicates, reversed duplicates, conflicts, multiplets, dangling entries, gap detection on/off, both entry points) against a reference mapping and the independent dot-bracket decoder",
+        text="Generated-input search: for each drawn list over a real structure's nucleotides the derived BPSEQ is checked for numbering, letters and gap placeholders, symmetry, one partner, canonical provenance and retention of conflict-free canonical pairs; per-strand dot-bracket text (optimal and every member of all_dot_brackets) must concatenate to that sequence and decode to exactly that matching; the extended rows must be balanced, full-length and encode each distinct input pair of each class exactly once.",
+        note=TRUST + "Nucleotide classification and one-letter names come from the reader. A class is compared up to orientation (cWH == cHW seen from the other residue).",
+        ref="3 C06"),
     "C07": dict(
         technique="exhaustive enumeration of pairings + Hypothesis structures against a reference decomposition (validity + coverage predicates)",
         text="Generated-input search over all pairings on <=8/11 positions and drawn structures up to ~150 nt; stems and hairpins are compared as sets with an independent decomposition, loops are checked by a validity predicate (closed cycle, paired ends, unpaired interiors), coverage of every unpaired nucleotide exactly once, and every strand's text against slices.",
@@ -101,6 +106,11 @@ CHECKS = {
         text="Generated-input search: the label space over the 19-symbol FR3D alphabet is enumerated completely up to length 5 (2.6M, quick) or 6 (49M, thorough) and every classification compared with a reference written from the statement (open cases accept either reading); generated listings mix valid lines, near misses and garbage and must import without raising, one interaction per line with two well-formed unit ids, exact identities, correct list and class, file order; generated single-/multi-model DSSR documents must keep exactly the resolvable valid pairs and consecutive resolvable stack members.",
         note=TRUST + "Python-int leniency in unit-id numbers is kept out of the generator. An atheris byte-level tier is not registered (the grammar is small text; Hypothesis grammars reach the logic directly).",
         ref="3 C19"),
+    "C20": dict(
+        technique="Hypothesis mmCIF documents written by the harness + corpus files, before/after comparison through an independent CIF tokenizer; CLI run in-process and compared byte-wise with the library result",
+        text="Generated-input search: for generated multi-category documents (quoted, multi-word, text-block and null values) and real files, copy/replace operations on present, absent and new items must change exactly the target column, keep every other category, item, row and row order, return the first-seen injective mapping, leave the text byte-identical when the category or source item is absent, and the command-line tool must write exactly the library's result.",
+        note=TRUST + "Documents are pre-filtered by a plain IoAdapterPy read/write self-check so that limitations of the mmcif package are not blamed on rnapolis. Alphabets have distinct characters and suffice for the number of distinct values.",
+        ref="3 C20"),
 }
 
 PENDING_REASON = "check not built yet in this revision of /verif (planned in DESIGN.md section 3); not claimed until it runs quiet on the unchanged tree"
